@@ -163,13 +163,15 @@ type Sim struct {
 	StickyPct int
 	lastActor string
 	fragBudget int
+	// SeenActors maps every goroutine label ever seen parked to the step it was first seen at.
+	SeenActors map[string]int
 
 	sc Scenario
 }
 
 func NewSim(ch *Chooser) *Sim {
 	return &Sim{Ch: ch, MaxSteps: 20000, Horizon: 10 * time.Minute,
-		violSeen: map[string]bool{}, Probes: map[string]int{}, Faults: map[string]int{},
+		SeenActors: map[string]int{}, violSeen: map[string]bool{}, Probes: map[string]int{}, Faults: map[string]int{},
 		WRun: 8, WDeliver: 4, WHarness: 4, WFault: 1}
 }
 
@@ -252,6 +254,9 @@ func (s *Sim) parkedActions(acts []Action) []Action {
 			continue
 		}
 		p := p
+		if _, ok := s.SeenActors[p.Actor]; !ok {
+			s.SeenActors[p.Actor] = s.Steps
+		}
 		acts = append(acts, Action{Class: clsRun, Key: p.Actor + " @" + p.Kind + ":" + p.Site, Weight: s.WRun, Do: func() {
 			s.lastActor = p.Actor
 			s.W.Release(p)
